@@ -134,3 +134,81 @@ def h_srt_frames(fps):
                  ["ttconv.srt.reader:to_model", "ttconv.imsc.writer:from_model", "ttconv.imsc.attributes:to_time_format", "ttconv.time_code:SmpteTimeCode.from_seconds"],
                  "replayers.reader_times:srt_frames", {"fps": fps},
                  "an SRT time that is a whole number of frames lands on exactly that frame in a frame-based IMSC output (all digit values)")
+
+
+def h_writer_reader_roundtrip(fmt, shape, mask):
+  """C10 / C11 `reading the writer's own output returns the cues that were written`, for ALL rational timing values of the shape: the
+  text the real writer returns (times are format tokens) is given to the real reader in the same symbolic run (its timing pattern
+  wrapped by restub.TokenRegex, numbers read from the tokens); the paragraphs read are, in order, the cues written: same begin, same
+  end (exact rationals), same text lines"""
+  from pyvc import modular
+  from contracts import callee
+  from specs.isd_shapes import SHAPES
+  from specs import cues as C
+  from pyvc.core import assume, sym_frac
+  import ttconv.srt.writer as srt_writer
+  import ttconv.vtt.writer as vtt_writer
+
+  def run(ctx):
+    import re as _re
+    from rtc import cues_common as CC
+    vals = {}
+
+    def v(name):
+      if name not in mask:
+        return None
+      if name not in vals:
+        x = sym_frac(name)
+        assume(x >= 0)
+        assume(x < 2 ** 18)      # below 100 h: an hour field of two digits (a wider value is a separate, unexplored path of the token reader)
+        vals[name] = x
+      return vals[name]
+
+    doc = SHAPES[shape](v)
+    writer, reader, rx = (srt_writer, srt_reader, "_TIMECODE_RE") if fmt == "srt" else (vtt_writer, vtt_reader, "_VTT_TS_RE")
+    with modular.contracts(callee.CLOCKTIME):
+      st, out = core.call_real(writer.from_model, doc, None, allowed=())
+    lits, toks = core.tokens_in(out)
+    concrete = lits[0]
+    for (_, spec), lit in zip(toks, lits[1:]):
+      concrete += ("000" if spec == "03" else "00") + lit
+    cues, problems, _ = CC.read_output(fmt, concrete)
+    prove(not problems, "written-text-is-grammatical", note=str(problems)[:200])
+    fld = "(\\d+|⟦sym\\d+⟧)"
+    sep = "," if fmt == "srt" else "\\."
+    timing = _re.compile(f"{fld}:{fld}:{fld}{sep}{fld} --> {fld}:{fld}:{fld}{sep}{fld}")
+    tl = [mm for mm in (timing.match(ln) for ln in out.split("\n")) if mm]
+    prove(len(tl) == len(cues), "every-cue-has-its-timing-line")
+
+    def val(x):
+      return core.cur().tokens[int(x[4:-1])][0] if x.startswith("⟦") else int(x)
+
+    def ms(g):
+      return ((val(g[0]) * 60 + val(g[1])) * 60 + val(g[2])) * 1000 + val(g[3])
+
+    real = reader.__dict__[rx]
+    real = getattr(real, "_real", real)
+    reader.__dict__[rx] = restub.TokenRegex(real)
+    try:
+      st, doc2 = core.call_real(reader.to_model, io.StringIO(out), allowed=())
+    finally:
+      reader.__dict__[rx] = real
+    ps = [e for e in doc2.get_body().dfs_iterator() if isinstance(e, model.P)]
+    prove(len(ps) == len(cues), "one-paragraph-per-cue-written", note=f"{len(ps)} paragraphs, {len(cues)} cues")
+    for p, mm, c in zip(ps, tl, cues):
+      prove(_exact(p.get_begin()) and _exact(p.get_end()), "times-read-are-exact-rationals")
+      prove(p.get_begin() * 1000 == ms(mm.groups()[0:4]), "begin-read==begin-written")
+      prove(p.get_end() * 1000 == ms(mm.groups()[4:8]), "end-read==end-written")
+      lines, cur = [], ""
+      for e in p.dfs_iterator():
+        if isinstance(e, model.Br):
+          lines.append(cur)
+          cur = ""
+        elif isinstance(e, model.Text):
+          cur += e.get_text()
+      lines.append(cur)
+      prove(C.NL.join(lines) == c["text"], "text-lines-read==text-lines-written", note=f"{lines!r} vs {c['text']!r}")
+
+  return Harness(f"{fmt}.writer->{fmt}.reader[{shape}:{'+'.join(mask)}]", run,
+                 [f"ttconv.{fmt}.writer:from_model", f"ttconv.{fmt}.reader:to_model"], "replayers.reader_times:writer_reader", {"fmt": fmt, "shape": shape, "mask": list(mask)},
+                 "reading the writer's own output returns the cues that were written (all rational timings below 2^18 s, this shape)")
